@@ -497,6 +497,10 @@ def adaptive(spec, ref, keys, outputs, dt, nrows, dts, T, cutoff, jcut, mech, rn
     exp = sol.y.T[:, cols]
     got = df.values
     scale = max(1.0, float(np.max(np.abs(sol.y))))
+    if scale > 1e4:
+        # a solution that grows by orders of magnitude amplifies the step errors of ANY adaptive run exponentially; the global error is
+        # then no fixed multiple of rtol (same rule as observe.compare_traj uses for fixed-step runs)
+        return 'discard'
     err = float(np.max(np.abs(got - exp))) if got.size else 0.0
     if not err <= 50 * rtol * scale + 1e-8:
         k = int(np.argmax(np.max(np.abs(got - exp), axis=1)))
